@@ -43,7 +43,7 @@ func registerMore(m map[string]propSpec) {
 		{Harness: "stublife", Overlay: "base", Name: "histories", Shards: 8},
 		{Harness: "stublife", Overlay: "base", Name: "slowcfg", Shards: 4},
 	}}
-	m["C18"] = propSpec{Level: "fault_enumeration", Engines: []engine{{Harness: "procs", Overlay: "base", Shards: 2}}}
+	m["C18"] = propSpec{Level: "fault_enumeration", Engines: []engine{{Harness: "procs", Overlay: "base", Shards: 4}}}
 	m["C20"] = propSpec{Level: "model_checking", Engines: []engine{{Harness: "samples", Overlay: "base"}}}
 	m["C06"] = propSpec{Level: "model_checking", Engines: []engine{
 		{Harness: "adapt", Overlay: "base", Name: "masks"},
